@@ -332,7 +332,40 @@ def _bind(helper: _Helper, call: ast.Call, recv) -> Optional[dict]:
     return m
 
 
-def _expand(helper: _Helper, binding: dict, caller_names: set, tag: str):
+def _live_across(fnode, name, site) -> bool:
+    """May a value of the caller's variable `name` be read after the call
+    site that was written before it (so that expanding a helper that also
+    writes `name` would clobber it)?  Without position information: yes.
+    Otherwise: the first occurrence of the name after the site is a read, or
+    the site sits in a loop whose body reads the name before any write."""
+    if fnode is None or site is None or not hasattr(site, 'lineno'):
+        return True
+    line = site.lineno
+    end = getattr(site, 'end_lineno', line) or line
+    occ = sorted(((n.lineno, n.col_offset, isinstance(n.ctx, ast.Load))
+                  for n in ast.walk(fnode) if isinstance(n, ast.Name)
+                  and n.id == name and hasattr(n, 'lineno')))
+    after = [o for o in occ if o[0] > end]
+    if after and after[0][2]:
+        return True
+    # enclosing loops: a read at the top of the body sees the previous
+    # iteration's write
+    for lp in ast.walk(fnode):
+        if isinstance(lp, (ast.For, ast.AsyncFor, ast.While)) and \
+                lp.lineno <= line <= (getattr(lp, 'end_lineno', line) or line):
+            inside = [o for o in occ if lp.lineno <= o[0] < line]
+            if isinstance(lp, (ast.For, ast.AsyncFor)):
+                tgt = {t.id for t in ast.walk(lp.target)
+                       if isinstance(t, ast.Name)}
+                if name in tgt:
+                    continue
+            if inside and inside[0][2]:
+                return True
+    return False
+
+
+def _expand(helper: _Helper, binding: dict, caller_names: set, tag: str,
+            fnode=None, site=None):
     """(prefix statements, body statements, value expression or None)."""
     f = helper.node
     body = copy.deepcopy(_strip_doc(f.body))
@@ -362,7 +395,7 @@ def _expand(helper: _Helper, binding: dict, caller_names: set, tag: str):
         else:
             exprs[p] = arg
     for loc in stored - params:
-        if loc in caller_names:
+        if loc in caller_names and _live_across(fnode, loc, site):
             renames[loc] = f'{loc}__{tag}'
     sub = _Subst(exprs, renames)
     body = [sub.visit(s) for s in body]
@@ -432,6 +465,37 @@ class _Inliner:
         out = []
         for s in stmts:
             done = False
+            if isinstance(s, ast.If):
+                # `if self._h(..):` / `if not self._h(..):` with a multi-
+                # statement helper ending in `return e`: the statements are
+                # hoisted in front of the `if`, the test becomes e
+                t = s.test
+                neg = isinstance(t, ast.UnaryOp) and isinstance(t.op, ast.Not)
+                if neg:
+                    t = t.operand
+                call = self._call_of(t)
+                m = self._match(call, cls) if call is not None else None
+                if m is not None and m[0].ok and m[0].kind == 'value' and \
+                        isinstance(t, ast.Await) == isinstance(
+                            m[0].node, ast.AsyncFunctionDef):
+                    h, recv = m
+                    b = _bind(h, call, recv)
+                    if b is not None:
+                        pre, body, val = _expand(
+                            h, b, caller_names, h.node.name.strip('_'),
+                            fnode, s)
+                        new = pre + body
+                        line = getattr(s, 'lineno', 0)
+                        _relocate(new, int(line) - 0.5, 0)
+                        _relocate([val], line, 0, step=0.0)
+                        s.test = ast.UnaryOp(op=ast.Not(), operand=val,
+                                             lineno=line, col_offset=0,
+                                             end_lineno=line,
+                                             end_col_offset=0) if neg else val
+                        for x in new:
+                            self._descend(x, cls, caller_names, fnode)
+                        out.extend(new)
+                        self.inlined[h.node.name] += 1
             if isinstance(s, (ast.Expr, ast.Assign, ast.AnnAssign,
                               ast.Return)) and getattr(s, 'value', None) \
                     is not None:
@@ -446,7 +510,8 @@ class _Inliner:
                         b = _bind(h, call, recv)
                         if b is not None:
                             pre, body, val = _expand(
-                                h, b, caller_names, h.node.name.strip('_'))
+                                h, b, caller_names, h.node.name.strip('_'),
+                                fnode, s)
                             new = pre + body
                             if val is not None:
                                 s2 = copy.copy(s)
@@ -493,7 +558,8 @@ class _Inliner:
                     b = _bind(h, node, recv)
                     if b is not None:
                         _pre, _body, val = _expand(
-                            h, b, caller_names, h.node.name.strip('_'))
+                            h, b, caller_names, h.node.name.strip('_'),
+                            fnode, node)
                         inl.inlined[h.node.name] += 1
                         _relocate([val], getattr(node, 'lineno', 0), 0,
                                   step=0.0)
@@ -641,19 +707,29 @@ def _t2_rename(rel, tree, ref_funcs, notes):
                     vanished.remove(v)
                     appeared.remove(a)
                     break
-        # 2. same text once the renames so far are applied
-        if vanished and appeared and renames:
+        # 2. same text once the renames found so far are applied (bindings
+        #    are in source order, so a binding's text mentions only locals
+        #    bound before it); repeated to a fixpoint.  A binding whose text
+        #    is not unique among the candidates is not paired here.
+        progress = True
+        while vanished and appeared and progress:
+            progress = False
             inv = {o: n for n, o in renames.items()}
+
+            def translated(v):
+                return _translate(v[2], inv)
             for a in list(appeared):
-                for v in vanished:
-                    txt = v[2]
-                    for o, n in inv.items():
-                        txt = _replace_word(txt, o, n)
-                    if v[1] == a[1] and txt == a[2]:
-                        renames[a[0]] = v[0]
-                        vanished.remove(v)
-                        appeared.remove(a)
-                        break
+                cands = [v for v in vanished
+                         if v[1] == a[1] and translated(v) == a[2]]
+                same = [x for x in appeared
+                        if x[1] == a[1] and x[2] == a[2]]
+                if len(cands) == 1 and len(same) == 1:
+                    v = cands[0]
+                    renames[a[0]] = v[0]
+                    vanished.remove(v)
+                    appeared.remove(a)
+                    inv[v[0]] = a[0]
+                    progress = True
         # 3. leftovers of one kind, pairwise in binding order, when the
         #    counts agree (arguments only by position)
         for kind in ('arg', 'for', 'with', 'except'):
@@ -671,6 +747,28 @@ def _t2_rename(rel, tree, ref_funcs, notes):
             notes.append(f'{rel}: {q}: local(s) renamed back to the '
                          'reference names: ' + ', '.join(
                              f'{n}->{o}' for n, o in sorted(renames.items())))
+
+
+def _translate(txt: str, inv: Dict[str, str]) -> str:
+    """The binding text `txt` with the variables in `inv` renamed (names
+    only: keyword-argument names and attributes are left alone)."""
+    if not inv:
+        return txt
+    pre = 'aug ' if txt.startswith('aug ') else ''
+    core = txt[len(pre):]
+    star = ''
+    while core.endswith('*'):
+        core, star = core[:-1], star + '*'
+    try:
+        e = ast.parse(core, mode='eval')
+    except SyntaxError:
+        for o, n in inv.items():
+            core = _replace_word(core, o, n)
+        return pre + core + star
+    for n in ast.walk(e):
+        if isinstance(n, ast.Name) and n.id in inv:
+            n.id = inv[n.id]
+    return pre + ast.unparse(e) + star
 
 
 def _replace_word(txt, old, new):
@@ -838,7 +936,22 @@ def _propagate_one(rel, q, f, name, notes, tree=None):
         if _stored_names(span[-1]) & rhs_names and not isinstance(
                 span[-1], (ast.Assign, ast.AnnAssign, ast.AugAssign,
                            ast.Expr, ast.Return)):
-            return
+            # fine when every use in that statement is in its header, which
+            # is evaluated once and before the body (`if t:`, `for x in t:`,
+            # `with t:`) -- not for `while t:`, whose test is re-evaluated
+            lst = span[-1]
+            header = []
+            if isinstance(lst, ast.If):
+                header = [lst.test]
+            elif isinstance(lst, (ast.For, ast.AsyncFor)):
+                header = [lst.iter]
+            elif isinstance(lst, (ast.With, ast.AsyncWith)):
+                header = [it.context_expr for it in lst.items]
+            in_header = {id(n) for h in header for n in ast.walk(h)}
+            uses_here = [n for n in ast.walk(lst) if isinstance(n, ast.Name)
+                         and n.id == name and isinstance(n.ctx, ast.Load)]
+            if not header or any(id(n) not in in_header for n in uses_here):
+                return
         sub = _Subst({name: rhs}, {})
         for k, st in enumerate(rest):
             rest[k] = sub.visit(st)
@@ -852,6 +965,83 @@ def _propagate_one(rel, q, f, name, notes, tree=None):
         return
 
 
+def _exits(stmts) -> bool:
+    """Every path through the block ends in return/raise/continue/break."""
+    if not stmts:
+        return False
+    last = stmts[-1]
+    if isinstance(last, (ast.Return, ast.Raise, ast.Continue, ast.Break)):
+        return True
+    if isinstance(last, ast.If):
+        return _exits(last.body) and _exits(last.orelse)
+    return False
+
+
+def _t0_canon_ifs(tree) -> int:
+    """Canonical spelling of two equivalent `if` shapes (applied to every
+    module, also on the reference tree -- it is not relative to the snapshot):
+      if c: A(always exits) else: B     ->  if c: A ; B
+      if a: (only) if b: X  (no elses)  ->  if a and b: X
+    Both directions of each are the same program; choosing one spelling means
+    a rule sees the same shape whichever the source uses."""
+    n = 0
+
+    def canon_block(blk):
+        nonlocal n
+        changed = True
+        while changed:
+            changed = False
+            out = []
+            for s in blk:
+                if isinstance(s, ast.If) and s.orelse and _exits(s.body):
+                    rest = s.orelse
+                    s.orelse = []
+                    out.append(s)
+                    out.extend(rest)
+                    changed = True
+                    n += 1
+                    continue
+                if isinstance(s, ast.If) and not s.orelse and len(
+                        s.body) == 1 and isinstance(s.body[0], ast.If) \
+                        and not s.body[0].orelse:
+                    inner = s.body[0]
+                    vals = (s.test.values if isinstance(s.test, ast.BoolOp)
+                            and isinstance(s.test.op, ast.And)
+                            else [s.test]) + (
+                        inner.test.values if isinstance(
+                            inner.test, ast.BoolOp) and isinstance(
+                            inner.test.op, ast.And) else [inner.test])
+                    test = ast.BoolOp(op=ast.And(), values=list(vals))
+                    ast.copy_location(test, s.test)
+                    test.end_lineno = getattr(inner.test, 'end_lineno',
+                                              getattr(test, 'lineno', 0))
+                    s.test = test
+                    s.body = inner.body
+                    out.append(s)
+                    changed = True
+                    n += 1
+                    continue
+                out.append(s)
+            blk[:] = out
+        return blk
+
+    def rec(node):
+        for field in ('body', 'orelse', 'finalbody'):
+            blk = getattr(node, field, None)
+            if isinstance(blk, list) and blk and isinstance(blk[0], ast.stmt):
+                for s in list(blk):
+                    rec(s)
+                canon_block(blk)
+                for s in blk:
+                    pass
+        for h in getattr(node, 'handlers', []) or []:
+            rec(h)
+        for c in getattr(node, 'cases', []) or []:
+            rec(c)
+    rec(tree)
+    return n
+
+
 def normalize(trees: Dict[str, ast.AST], only: Optional[set] = None,
               ref: Optional[dict] = None) -> List[str]:
     """Normalise (in place) the modules in `only` (default: all)."""
@@ -860,6 +1050,7 @@ def normalize(trees: Dict[str, ast.AST], only: Optional[set] = None,
     for rel in sorted(trees):
         if only is not None and rel not in only:
             continue
+        _t0_canon_ifs(trees[rel])
         if rel not in ref:
             continue
         rf = ref[rel]
